@@ -60,6 +60,19 @@ claim("C17", "exploration",
       "One waiter (register; loop wait_while) against one or two notifiers (publish condition, notify), one or two conditions, two rounds, condition under a mutex; park has no timeout so a lost wake-up is a loom deadlock. The models found a store-buffering lost wake-up on the unchanged tree (finding F3, fixed). The three production notifiers are covered under SC by C05.",
       "DESIGN.md §4 C17, §5 F3", LOOM_NOTE)
 
+claim("C06", "exploration",
+      "relational check: bounded exhaustive enumeration of blocks x policies x the configuration set, parallel members under deviation-bounded schedule DFS; oracle = the forced-sequential member (+ stock revm when the policies are off)",
+      "For every block (general alphabet, the C12 call shapes, the C13 reserve blocks) and each of the four delegated-account policy combinations, every member of {1..3 workers} x {min_parallel_txs 0, n, n+1} x {execute, parallel_execute(Some(k)), fallback_sequential} must produce the observation (outcomes, bundle, Ok/Err, failing index) of the forced-sequential run of the same block and policy; policy-off members must also equal stock revm. This is the only oracle available for policy-enabled execution, for which stock revm is no reference.",
+      "DESIGN.md §4 C06", SCHED_NOTE)
+claim("C12", "exploration",
+      "bounded exhaustive enumeration of call shapes x specs x guard on/off x designator present/absent, plus a 256-opcode sweep, oracle = stock revm (resp. stock revm with the delegate target's create opcode undefined)",
+      "14 programs reaching CREATE/CREATE2 (top-level create, ordinary contract, nested call, delegatecall, staticcall, delegated EOA top-level and nested, delegated EOA calling an ordinary factory, ordinary contract delegatecalling the delegate's code, delegated create followed by the account's own transaction, in-block delegation) on six rule sets, guard on and off, designators present and absent, sequential and parallel path. Where no create runs in a delegated context the result must be bit-identical to stock revm; otherwise identical to stock revm on the same program with the delegate target's create opcode replaced by an undefined opcode, modulo the halt reason. The opcode sweep executes every opcode byte after a fixed stack priming with the guard on against stock revm (result, gas, output).",
+      "DESIGN.md §4 C12", SCHED_NOTE)
+claim("C13", "exploration",
+      "bounded exhaustive enumeration of reserve blocks (debit kind x variant x boundary balance x number of later own transactions) x policy x paths x deviation-bounded schedule DFS, oracle = independent evaluation of the rule + stock revm + forced-sequential relation",
+      "The rule (violation iff a surviving net debit leaves the delegated account below min(balance before the first debit, saturating sum of the maximum costs of its later own transactions)) is evaluated independently from the block parameters. No violation or policy off: the observation must equal stock revm. Violation: a charged top-level Revert with empty output and the gas the execution spent, no state but nonce/fee/authorisation effects, the account keeps its balance, its later transactions all execute, and the observation equals the forced-sequential run. Includes exact / exact-1 boundary balances, inner reverts, credits before the debit, refunded debits, authorisation in the debiting transaction and a balance that only an earlier in-block transfer provides (stale speculative read).",
+      "DESIGN.md §4 C13", SCHED_NOTE)
+
 _pending = "check not built yet in this round; tracked in DESIGN.md §10 (build order)"
-for pid in ["C06","C12","C13"]:
+for pid in []:
     NOT_APPLICABLE[pid] = _pending
